@@ -36,6 +36,9 @@ type sessImpl struct {
 	cfg   map[string]string
 	bs    string
 	wires int
+	// sched=2: weekly window; the instant `stime out` asks about
+	weekly    bool
+	weeklyOut time.Time
 }
 
 // scripted application: verdicts are carried by the messages themselves
@@ -194,13 +197,39 @@ func (s *sessImpl) build(kv map[string]string) string {
 	if p, ok := dictPath("tdd"); ok {
 		st.Set(config.TransportDataDictionary, p)
 	}
+	s.weekly = false
+	var created time.Time
 	if kv["sched"] == "1" {
 		now := time.Now().UTC()
 		st.Set(config.StartTime, now.Add(-6*time.Hour).Format("15:04:05"))
 		st.Set(config.EndTime, now.Add(6*time.Hour).Format("15:04:05"))
 	}
+	if kv["sched"] == "2" {
+		// a weekly session that wraps the week end: StartDay = day wd+1 00:00:00, EndDay = day wd 23:00:00 (UTC), so the
+		// window is the whole week but one hour; the store was created ck days ago, still inside the current window
+		now := time.Now().UTC()
+		wd, _ := strconv.Atoi(kv["wd"])
+		if int(now.Weekday()) == wd && now.Hour() >= 21 { // keep the real clock away from the closed hour
+			wd = (wd + 3) % 6
+		}
+		ck, _ := strconv.Atoi(kv["ck"])
+		p := (int(now.Weekday()) - (wd + 1) + 14) % 7 // whole days since the window opened
+		created = now.Add(-time.Duration(ck%(p+1)) * 24 * time.Hour)
+		names := []string{"Sunday", "Monday", "Tuesday", "Wednesday", "Thursday", "Friday", "Saturday"}
+		st.Set(config.StartDay, names[(wd+1)%7])
+		st.Set(config.EndDay, names[wd])
+		st.Set(config.StartTime, "00:00:00")
+		st.Set(config.EndTime, "23:00:00")
+		s.weekly = true
+		toEnd := (wd - int(now.Weekday()) + 7) % 7
+		s.weeklyOut = time.Date(now.Year(), now.Month(), now.Day(), 23, 30, 0, 0, time.UTC).Add(time.Duration(toEnd) * 24 * time.Hour)
+	}
 	id := quickfix.SessionID{BeginString: s.bs, SenderCompID: "SND", TargetCompID: "TGT"}
-	v, err := quickfix.VerifNewSession(initiator, id, logStoreFactory{inner: quickfix.NewMemoryStoreFactory(), note: func(x string) { s.log = append(s.log, x) }}, st, quickfix.NewNullLogFactory(), scriptApp{s})
+	v, err := quickfix.VerifNewSession(initiator, id, logStoreFactory{inner: quickfix.NewMemoryStoreFactory(), note: func(x string) { s.log = append(s.log, x) }, made: func(ms quickfix.MessageStore) {
+		if !created.IsZero() {
+			ms.SetCreationTime(created)
+		}
+	}}, st, quickfix.NewNullLogFactory(), scriptApp{s})
 	if err != nil {
 		panic("cannot build session: " + err.Error())
 	}
@@ -449,12 +478,16 @@ func (s *sessImpl) exec(op string) string {
 			return s.observe("ok")
 		case "stime":
 			now := time.Now()
-			switch w[1] {
-			case "in":
+			switch {
+			case w[1] == "in":
 				s.v.CheckSessionTime(now)
-			case "out":
+			case w[1] == "out" && s.weekly:
+				s.v.CheckSessionTime(s.weeklyOut) // the closed hour at the end of this week's window
+			case w[1] == "out":
 				s.v.CheckSessionTime(now.Add(12 * time.Hour))
-			case "new":
+			case w[1] == "new" && s.weekly:
+				s.v.CheckSessionTime(now.Add(7 * 24 * time.Hour)) // next week's window
+			case w[1] == "new":
 				s.v.CheckSessionTime(now.Add(24 * time.Hour))
 			}
 			return s.observe("ok")
@@ -1033,6 +1066,10 @@ func genSess(r *rng, tier string, idx int, o *out, do func(string) string) strin
 	sched := "0"
 	if g.sched {
 		sched = "1"
+		if r.chance(1, 2) { // weekly window wrapping the week end, store created on an earlier day of it
+			sched = fmt.Sprintf("2 wd=%d ck=%d", r.intn(6), r.intn(7))
+			g.o.kind("sched.weekly-wrapped")
+		}
 	}
 	ltp := "1"
 	if v := replayLTP(); v != "" {
